@@ -48,6 +48,15 @@ def main():
             results[c] = {'exit': r.returncode, 'violations': [v.split('#', 1)[-1].strip()[:160] for v in viol][:8], 'n_violation_lines': len(viol),
                           'seconds': round(time.time() - t0, 1)}
             print(c, 'exit', r.returncode, len(viol), 'violation lines', [v.split('#', 1)[-1].strip()[:100] for v in viol][:3])
+            if viol:
+                # the replay file must still fail on the mutated tree and pass on /repo itself
+                rp = viol[0].split('replay=')[1].split()[0]
+                full = '/tmp/vfout-%d/%s' % (os.getpid(), rp)
+                r_m = sh('cd /verif && VERIF_REPO=%s VERIF_WORK=/tmp/vfwork-%d PYTHONPATH=%s:/verif /venv/bin/python -m vf.cli replay %s' % (WT, os.getpid(), WT, full))
+                r_c = sh('cd /verif && VERIF_WORK=/tmp/vfwork-%d PYTHONPATH=/repo:/verif /venv/bin/python -m vf.cli replay %s' % (os.getpid(), full))
+                results[c]['replay_on_mutant_exit'] = r_m.returncode
+                results[c]['replay_on_repo_exit'] = r_c.returncode
+                print('   replay: mutant exit', r_m.returncode, '/repo exit', r_c.returncode, (r_m.stdout + r_c.stdout)[-200:].replace('\n', ' | ') if (r_m.returncode != 1 or r_c.returncode != 0) else '')
         meta['checks'] = results
         meta['caught_by'] = [c for c, v in results.items() if v['exit'] == 1]
         meta['ran'] = ['git apply patch.diff in a scratch worktree of /repo', 'full pytest suite', 'demo.py on clean and patched tree',
